@@ -99,6 +99,14 @@ def preOf (g : Geom Float) : Bool := preOfB boxF g
 partial def anyGeom (p : Geom Float → Bool) (g : Geom Float) : Bool :=
   p g || (match g with | .collection gs => gs.any (anyGeom p) | _ => false)
 
+partial def geomHasNaN : Geom Float → Bool
+  | .point p => p.x.isNaN || p.y.isNaN
+  | .bound a b => a.x.isNaN || a.y.isNaN || b.x.isNaN || b.y.isNaN
+  | .multiPoint p | .lineString p | .ring p => p.any fun q => q.x.isNaN || q.y.isNaN
+  | .multiLineString l | .polygon l => l.any (·.any fun q => q.x.isNaN || q.y.isNaN)
+  | .multiPolygon l => l.any (·.any (·.any fun q => q.x.isNaN || q.y.isNaN))
+  | .collection gs => gs.any geomHasNaN
+
 /-- an `orb.Bound` value with Min > Max in a coordinate ("malformed negative state", bound.go) -/
 def malformedBound (g : Geom Float) : Bool :=
   anyGeom (fun h => match h with | .bound a b => a.x > b.x || a.y > b.y | _ => false) g
@@ -248,8 +256,12 @@ def centroidColl (e generic : String) (members : List (Geom Float)) (ms : List S
     let total := cs.foldl (fun s c => s + c.2.2) 0
     if !closeF ga total then s!"propfail collection-centroid-area {e}" else
     if total != 0 then
-      let sx := cs.foldl (fun s c => s + c.1 * c.2.2) 0
-      let sy := cs.foldl (fun s c => s + c.2.1 * c.2.2) 0
+      -- members below the top dimension have weight 0 and drop out (the code skips them: over
+      -- non-finite centroids 0 · NaN would not be 0)
+      let topD := (members.map dimOf).foldl (fun m d => if d > m then d else m) (-1)
+      let csTop := ((members.zip cs).filter fun (g, _) => dimOf g == topD).map (·.2)
+      let sx := csTop.foldl (fun s c => s + c.1 * c.2.2) 0
+      let sy := csTop.foldl (fun s c => s + c.2.1 * c.2.2) 0
       if closeF gx (sx / total) && closeF gy (sy / total) then s!"ok coll-centroid {e}"
       else s!"propfail collection-centroid {e}"
     else
@@ -278,6 +290,9 @@ def boundColl (e generic : String) (ms : List String) : String :=
   match parse4 generic, ms.mapM parse4 with
   | some (a, b, c, d), some bs =>
     let isE (q : Float × Float × Float × Float) : Bool := q.1 > q.2.2.1 || q.2.1 > q.2.2.2
+    let nanQ (q : Float × Float × Float × Float) : Bool := q.1.isNaN || q.2.1.isNaN || q.2.2.1.isNaN || q.2.2.2.isNaN
+    -- "the least box containing" has no meaning over NaN (no order): not judged
+    if nanQ (a, b, c, d) || bs.any nanQ then s!"ok coll-bound-nan {e}" else
     (match bs.filter (!isE ·) with
      | [] =>
        (match bs with
@@ -312,6 +327,136 @@ def mvtEmptyLine (v : GVal Float) : Bool :=
   | some g => one g
   | none => false
 
+
+/-! ### counterparts on a neighbouring kind (`alts`)
+
+    Entry points without exported kind-specific functions (bound, round, planar area / centroid /
+    length / distance-from, geo area / length) are tied to their own value on the value of a
+    NEIGHBOURING KIND that stands for the same thing: a bound as its ring (`ring`) and its polygon
+    (`poly`); a ring as its one-ring polygon (`poly`) and its vertex list as a line (`line`) and a
+    multi-point (`mpt`); a line as the only line of a multi-line (`mls`), as a ring (`ring`), as a
+    multi-point (`mpt`); a polygon as the only polygon of a multi-polygon (`mpoly`); a point as the
+    only point of a multi-point (`mpt`).  The harness reports the entry point's outcome on each of
+    them; the relation that must hold is decided HERE, by entry, kind and relation, and is the one
+    the code has (internal/length/length.go, planar/area.go, planar/distance_from.go, geo/area.go,
+    bound.go, round.go: `case orb.Bound: return F(g.ToRing())`, a ring measured as the line of its
+    vertices, a polygon's area the absolute value of its ring's, a single member's value plus 0). -/
+inductive AltRule where
+  /-- the same outcome, bit for bit (NaN = NaN) -/
+  | same
+  /-- the first `_`-field (the distance of distance-from-with-index; the index counts something else) -/
+  | first
+  /-- a point's distance may be NaN, a multi-point's minimum skips NaN and stays +Inf; otherwise the same (first field) -/
+  | pointMP
+  /-- the polygon's area is the absolute value of the ring's -/
+  | absArea
+  /-- centroid_area of a ring vs its polygon: area absolute; the same centroid unless the area is 0 -/
+  | centroidRP
+  /-- centroid_area of a polygon vs the multi-polygon of it: the same area; centroid·a/a unless the area is 0 -/
+  | centroidPM
+  /-- geometry-valued: the outcome on the neighbouring kind is the outcome re-wrapped as that kind -/
+  | rewrap
+  /-- `Bound()` of a bound's ring / polygon is the bound itself when it is well formed (Min ≤ Max) -/
+  | boundWF
+
+def lengthEntries : List String := ["planar.length", "geo.length", "geo.lengthhav", "geo.lengthhaversign"]
+
+/-- the relation entry `e` must satisfy between its outcome on a value of kind `k` and on that
+    value's neighbour `rel`; `none`: the code relates them in no simple way (a line has no area, a
+    multi-point no length, a projected bound is the bound of two projected corners …) -/
+def altRule (e k rel : String) : Option AltRule :=
+  let std : Bool := (k == "B" && (rel == "ring" || rel == "poly")) || (k == "R" && (rel == "poly" || rel == "line"))
+    || (k == "LS" && (rel == "mls" || rel == "ring")) || (k == "PG" && rel == "mpoly") || (k == "P" && rel == "mpt")
+  if lengthEntries.contains e then (if std then some .same else none)
+  else if e == "geo.area" then
+    (if std && !(k == "R" && rel == "line") && !(k == "LS" && rel == "ring") then some .same else none)
+  else if e == "planar.area" then
+    (if (k == "B" || k == "R") && rel == "poly" then some .absArea
+     else if std && !(k == "R" && rel == "line") && !(k == "LS" && rel == "ring") then some .same else none)
+  else if e == "planar.centroid" then
+    (if (k == "B" || k == "R") && rel == "poly" then some .centroidRP
+     else if k == "PG" && rel == "mpoly" then some .centroidPM
+     else if (k == "B" && rel == "ring") || (k == "LS" && rel == "mls") || (k == "P" && rel == "mpt") then some .same else none)
+  else if e == "planar.distfrom" || e == "planar.distfromidx" then
+    (if k == "P" && rel == "mpt" then some .pointMP
+     else if (k == "LS" && rel == "mls") || (k == "PG" && rel == "mpoly") then some .first
+     else if std then some .same else none)
+  else if e == "bound" then
+    (if k == "B" then some .boundWF else some .same)
+  else if e == "round" || e == "clone" then some .rewrap
+  else if e == "project" then (if k == "B" then none else some .rewrap)
+  else none
+
+def sameField (a b : String) : Bool :=
+  a == b || (match hexF a, hexF b with | some x, some y => a.length == 16 && b.length == 16 && x.isNaN && y.isNaN | _, _ => false)
+
+/-- the same `_`-separated fields, bit for bit, any NaN equal to any NaN -/
+def sameTok (a b : String) : Bool :=
+  let fa := a.splitOn "_"
+  let fb := b.splitOn "_"
+  fa.length == fb.length && (fa.zip fb).all fun (x, y) => sameField x y
+
+def sameF (a b : Float) : Bool := a.toBits == b.toBits || (a.isNaN && b.isNaN)
+
+/-- the outcome token of a geometry-valued entry point re-wrapped as the neighbouring kind -/
+def rewrapTok (k rel t : String) : Option String :=
+  let j (l : List String) : String := "_".intercalate l
+  match k, rel, t.splitOn "_" with
+  | "B", "ring", ["B", x0, y0, x1, y1] => some (j ["R", "5", x0, y0, x1, y0, x1, y1, x0, y1, x0, y0])
+  | "B", "poly", ["B", x0, y0, x1, y1] => some (j ["PG", "1", "5", x0, y0, x1, y0, x1, y1, x0, y1, x0, y0])
+  | "R", "poly", "R" :: rest => some (j ("PG" :: "1" :: rest))
+  | "R", "line", "R" :: rest => some (j ("LS" :: rest))
+  | "R", "mpt", "R" :: rest => some (j ("MP" :: rest))
+  | "LS", "mls", "LS" :: rest => some (j ("MLS" :: "1" :: rest))
+  | "LS", "ring", "LS" :: rest => some (j ("R" :: rest))
+  | "LS", "mpt", "LS" :: rest => some (j ("MP" :: rest))
+  | "PG", "mpoly", "PG" :: rest => some (j ("MPG" :: "1" :: rest))
+  | "P", "mpt", "P" :: rest => some (j ("MP" :: "1" :: rest))
+  | _, _, _ => none
+
+def finiteModest (x : Float) : Bool := x.isFinite && x.abs < 1e150
+
+/-- does the outcome `alt` on the neighbour `rel` stand in the demanded relation to `generic`? -/
+def altHolds (r : AltRule) (k rel generic alt : String) (wellFormed : Bool) : Bool :=
+  match r with
+  | .same => sameTok generic alt
+  | .first => sameField ((generic.splitOn "_").headD "") ((alt.splitOn "_").headD "?")
+  | .pointMP =>
+    (match hexF ((generic.splitOn "_").headD ""), hexF ((alt.splitOn "_").headD "") with
+     | some g, some a => if g.isNaN then a == inf else sameF g a
+     | _, _ => false)
+  | .absArea =>
+    (match hexF generic, hexF alt with
+     | some g, some a => sameF g.abs a
+     | _, _ => false)
+  | .centroidRP =>
+    (match parse3 generic, parse3 alt with
+     | some (gx, gy, ga), some (ax, ay, aa) => sameF ga.abs aa && (ga == 0 || (sameF gx ax && sameF gy ay))
+     | _, _ => false)
+  | .centroidPM =>
+    (match parse3 generic, parse3 alt with
+     | some (gx, gy, ga), some (ax, ay, aa) =>
+       sameF ga aa && (ga == 0 || !(finiteModest gx && finiteModest gy && finiteModest ga) || (closeF gx ax && closeF gy ay))
+     | _, _ => false)
+  | .rewrap =>
+    (match rewrapTok k rel generic with
+     | some w => w == alt
+     | none => false)
+  | .boundWF => !wellFormed || sameTok generic alt
+
+/-- first failing counterpart of the list `rel outcome rel outcome …`; `none`: all hold -/
+def altCheck (e k generic : String) (wellFormed : Bool) : List String → Option String
+  | rel :: alt :: rest =>
+    if alt == "panic" then some ("panic-counterpart " ++ k ++ "->" ++ rel) else
+    match altRule e k rel with
+    | some r => if altHolds r k rel generic alt wellFormed then altCheck e k generic wellFormed rest
+                else some ("counterpart-disagrees " ++ k ++ "->" ++ rel)
+    | none => altCheck e k generic wellFormed rest
+  | _ => none
+
+def altCount (e k : String) : List String → Nat
+  | rel :: _ :: rest => (if (altRule e k rel).isSome then 1 else 0) + altCount e k rest
+  | _ => 0
 
 /-! ### parameters (op `callp`)
 
@@ -433,20 +578,42 @@ def handleCall (inp out : Toks) (P : Params := {}) : String :=
     let dim := (g?.map dimOf).getD (-1)
     let malformed := (g?.map malformedBound).getD false
     match splitBar out with
-    | [[generic], [typed], [unch], kparts] =>
+    | [[generic], [typed], [unch], kparts, alts] =>
       if generic == "panic" then
         (if e == "mvt" && mvtEmptyLine v then s!"propfail panic-empty-line {en}" else s!"propfail panic {en}") else
       if typed == "panic" then s!"propfail panic-typed {en}" else
-      let typedOk : Bool :=
+      -- The bound pre-test of clip / smart clip is computed here from the input.  Over NaN coordinates
+      -- `Bound.Extend` / `Union` (math.Min / math.Max, order of the vertices) is not what the comparison
+      -- twin computes, so for an input holding a NaN the pre-test is taken as UNKNOWN: the outcome must
+      -- be right for one of its two values.
+      -- A NaN has no order: what the box test says about a member alone and about the union bound of
+      -- the collection (which a NaN member may or may not have poisoned, depending on its position)
+      -- need not agree; for such inputs the collection clause of clip / smart clip is judged only as far
+      -- as one of the two pre-test values explains the outcome (tag coll-clip-nan-unordered otherwise).
+      let preUnknown : Bool := (e == "clip" || e == "smartclip") && (g?.map geomHasNaN).getD false
+      let measure : Bool := e.startsWith "planar." || e.startsWith "geo."
+      let typedOkWith (pr : Bool) : Bool :=
         if typed == "-" then true else
-        match relate e k pre dim typed (k == "B" && malformed) with
-        | some want => generic == want
+        match relate e k pr dim typed (k == "B" && malformed) with
+        | some want => generic == want || (measure && sameTok generic want)   -- a NaN is any NaN
         | none => true
+      let typedOk : Bool := typedOkWith pre || (preUnknown && typedOkWith (!pre))
       if !typedOk then s!"propfail typed-disagrees {en}" else
+      -- the value on the neighbouring kinds (a bound as its ring / polygon, a ring as its polygon …)
+      let wellFormed : Bool := match g? with | some (.bound a b) => a.x ≤ b.x && a.y ≤ b.y | _ => true
+      let altToks : List String := if alts == ["-"] then [] else alts
+      if altToks.length % 2 != 0 then "bad alts" else
+      match altCheck e k generic wellFormed altToks with
+      | some why => s!"propfail {why} {en}"
+      | none =>
+      let nAlt := altCount e k altToks
+      -- read-only: the harness compares the serialised argument AND every slice header and every slot up
+      -- to the CAPACITY of every slice in it (sentinel slots behind len) before / after the call
       if readOnly.contains e && unch != "1" then s!"propfail argument-modified {en}" else
       let verdict : String :=
         match kparts with
-        | ["-1"] => (if k == "nil" || (gtoks.headD "").startsWith "n" then "ok nilval " ++ en else "ok " ++ en)
+        | ["-1"] => (if k == "nil" || (gtoks.headD "").startsWith "n" then "ok nilval " ++ en
+                     else if nAlt > 0 then "ok alt " ++ en else "ok " ++ en)
         | kt :: ms =>
           if kt.toNat? != some ms.length then "bad member-count" else
           if ms.any (· == "panic") then
@@ -485,8 +652,16 @@ def handleCall (inp out : Toks) (P : Params := {}) : String :=
                else s!"propfail collection-map {en}"
              else if generic == collTok ms then "ok coll-map " ++ en
              else s!"propfail collection-map {en}"
-           | some "clip" => clipColl en generic pre malformed ms
-           | some "smartclip" => smartColl en generic dim pre malformed ms
+           | some "clip" =>
+             let v1 := clipColl en generic pre malformed ms
+             if preUnknown && !v1.startsWith "ok" then
+               (let v2 := clipColl en generic (!pre) malformed ms
+                if v2.startsWith "ok" then v2 else s!"ok coll-clip-nan-unordered {en}") else v1
+           | some "smartclip" =>
+             let v1 := smartColl en generic dim pre malformed ms
+             if preUnknown && !v1.startsWith "ok" then
+               (let v2 := smartColl en generic dim (!pre) malformed ms
+                if v2.startsWith "ok" then v2 else s!"ok coll-clip-nan-unordered {en}") else v1
            | some "union" =>
              -- tilecover.Collection returns the first member's error
              if ms.any (· == "err") then (if generic == "err" then "ok coll-union-err " ++ en else s!"propfail collection-union {en}") else
@@ -507,6 +682,11 @@ def handleCall (inp out : Toks) (P : Params := {}) : String :=
              (match g? with
               | some (.collection gs) => centroidColl en generic gs ms
               | _ => "bad centroid input")
+           | some enc =>
+             if (enc == "wkb" || enc == "ewkb" || enc == "wkt" || enc == "geojson") && ms.any (· == "err") then
+               -- a member that cannot be encoded (JSON has no NaN / ±Inf): the collection cannot either
+               (if generic == "err" then "ok coll-concat-err " ++ en else s!"propfail collection-concat {en}") else
+             (match some enc with
            | some "wkb" =>
              if generic == collHeader P.be none ms.length ++ String.join ms then "ok coll-concat " ++ en
              else s!"propfail collection-concat {en}"
@@ -524,6 +704,7 @@ def handleCall (inp out : Toks) (P : Params := {}) : String :=
                else "{\"type\":\"GeometryCollection\",\"geometries\":[" ++ ",".intercalate ms ++ "]}"
              if generic == want then "ok coll-concat " ++ en else s!"propfail collection-concat {en}"
            | some c => "bad combine " ++ c
+           | none => "bad combine")
            | none => if undecidedHere.contains e then "ok coll-elsewhere " ++ en else "bad entry " ++ en)
         | _ => "bad members"
       -- a result holding a nil interface member: reported only when every other clause holds, so the
@@ -531,7 +712,15 @@ def handleCall (inp out : Toks) (P : Params := {}) : String :=
       if verdict.startsWith "ok" && geomEntry e && hasNilMember generic && !(gtoks.contains "nil") then
         s!"propfail result-nil-member {en}"
       else verdict
-    | _ => if out == ["panic"] then "propfail panic harness" else "bad output"
+    | _ =>
+      -- watchdog outcomes (harness/c20w.go): the worker process did not answer within its CPU-time
+      -- limit (`hang`) or died of a fatal error — out of memory, stack overflow — (`crash`), twice;
+      -- `-aux`: not the generic call itself but the kind-specific function or a member call
+      if out == ["hang"] then s!"propfail hang {en}"
+      else if out == ["crash"] then s!"propfail crash {en}"
+      else if out == ["hang-aux"] then s!"propfail hang-aux {en}"
+      else if out == ["crash-aux"] then s!"propfail crash-aux {en}"
+      else if out == ["panic"] then "propfail panic harness" else "bad output"
 
 def kindOfV : GVal Float → Option Kind
   | .nilIface => none
@@ -566,7 +755,10 @@ def handleEq (inp out : Toks) : String :=
         if ka == none || kb == none then s!"ok eq-nil {g1}"
         else if ka != kb then "ok eq-cross-kind 0"
         else s!"ok eq-same-kind {g1}"
-      | _ => if out == ["panic"] then "propfail panic harness" else "bad output"
+      | _ =>
+        if out == ["hang"] || out == ["hang-aux"] then "propfail hang equal"
+        else if out == ["crash"] || out == ["crash-aux"] then "propfail crash equal"
+        else if out == ["panic"] then "propfail panic harness" else "bad output"
 
 def handle (ts : Toks) : String :=
   match ts with
